@@ -282,6 +282,17 @@ def require_all(
     def authenticate(req: falcon.Request) -> AuthContext:
         claims = gate(req)
         if inner is None:
+            # A gate may let a request through without having verified it — the
+            # proxy-proof gate in ``allow`` mode returns ``verified: "false"``
+            # instead of raising. Passing is not the same as proving: with no
+            # inner credential such a request proceeds exactly as an anonymous
+            # one would, keeping the gate's claims for attribution only.
+            if claims.get("verified", "true") != "true":
+                return AuthContext(
+                    domain=None,
+                    authenticated=False,
+                    claims={gate.claims_key: claims},
+                )
             return AuthContext(
                 domain=gate.name,
                 authenticated=True,
